@@ -233,6 +233,7 @@ type replayDoc struct {
 	Values     map[string]string `json:"values"`
 	Command    string            `json:"command"`
 	Outcome    string            `json:"native_outcome,omitempty"`
+	Trace      []string          `json:"symbolic_branch_trace,omitempty"`
 }
 
 func writeReplay(prop string, ob *sx.Obligation, f *sx.Finding, n int, bi *buildInfo) (string, *replayDoc) {
@@ -254,7 +255,7 @@ func writeReplay(prop string, ob *sx.Obligation, f *sx.Finding, n int, bi *build
 		pkg = "./" + ob.Pkg
 	}
 	doc := &replayDoc{Property: prop, Obligation: ob.Name, Harness: ob.Func, Pkg: pkg, Label: f.Label, Kind: f.Kind,
-		Msg: f.Msg, Pos: f.Pos, Solver: f.Solver, Values: vals,
+		Msg: f.Msg, Pos: f.Pos, Solver: f.Solver, Values: vals, Trace: f.Trace,
 		Command: fmt.Sprintf("cd %s && VP_REPLAY=%s go test -v -vet=off -count=1 -run '^TestVPReplay$' -overlay %s %s", repoDir, path, bi.overlayJSON, pkg)}
 	b, _ := json.MarshalIndent(doc, "", " ")
 	os.WriteFile(path, b, 0o644)
@@ -391,6 +392,11 @@ func cmdCheck(args []string) int {
 	loadS := time.Since(tl).Seconds()
 	known := loadKnown()
 	defer smt.DefaultPool.Close()
+	if old, _ := filepath.Glob(filepath.Join(verifDir, "evidence", "replay", *prop+"-*.json")); *only == "" {
+		for _, f := range old {
+			os.Remove(f)
+		}
+	}
 
 	exit := 0
 	var evObs []obEvidence
@@ -460,11 +466,27 @@ func cmdCheck(args []string) int {
 		}
 		// findings: replay and classify
 		perLabel := map[string]int{}
+		knownReplayed := map[string]bool{}
 		for _, f := range r.Findings {
 			key := f.Label + "@" + f.Pos
-			perLabel[key]++
-			if perLabel[key] > 2 {
-				continue
+			// classify on the solver's model first: findings listed in known_findings.json
+			var kf *knownFinding
+			for i := range known {
+				if known[i].matches(ob.Prop, ob.Name, f) {
+					kf = &known[i]
+					break
+				}
+			}
+			if kf != nil {
+				if knownReplayed[kf.What] {
+					continue // one native confirmation per listed finding
+				}
+				knownReplayed[kf.What] = true
+			} else {
+				perLabel[key]++
+				if perLabel[key] > 3 {
+					continue
+				}
 			}
 			replayN++
 			path, doc := writeReplay(ob.Prop, ob, f, replayN, bi)
@@ -484,24 +506,18 @@ func cmdCheck(args []string) int {
 				machinery = append(machinery, fmt.Sprintf("%s: SPURIOUS counterexample (does not reproduce natively): %s", ob.Name, desc))
 				continue
 			}
-			matched := false
-			for i := range known {
-				if known[i].matches(ob.Prop, ob.Name, f) {
-					matched = true
-					line := fmt.Sprintf("KNOWN-FINDING: property=%s %s", ob.Prop, known[i].What)
-					if !knownLines[line] {
-						knownLines[line] = true
-						fmt.Println(line)
-					}
-					break
+			if kf != nil {
+				line := fmt.Sprintf("KNOWN-FINDING: property=%s %s", ob.Prop, kf.What)
+				if !knownLines[line] {
+					knownLines[line] = true
+					fmt.Println(line)
 				}
+				continue
 			}
-			if !matched {
-				violations++
-				fmt.Printf("VIOLATION property=%s replay=%s\n", ob.Prop, path)
-				fmt.Printf("  %s\n", desc)
-				exit = 1
-			}
+			violations++
+			fmt.Printf("VIOLATION property=%s replay=%s\n", ob.Prop, path)
+			fmt.Printf("  %s\n", desc)
+			exit = 1
 		}
 		evObs = append(evObs, oe)
 	}
